@@ -629,7 +629,7 @@ fn main() {
         let mut values_equal = 0u64;
         for i in 0..nfrag {
             let mut r = Rng::for_case(opts.seed ^ 0xF1A6, i);
-            let mut g = frag1::Gen { r: &mut r, env: vec![], counter: 0 };
+            let mut g = frag1::Gen { r: &mut r, env: vec![], counter: 0, blocks: i % 2 == 1 };
             let seq = g.seq(2);
             let src = frag1::src_seq(&seq);
             let unit = match compile_program(&src, &b) {
@@ -642,8 +642,12 @@ fn main() {
             };
             let case = frag1::prepare(&seq, &unit);
             ev.case(&format!("frag1:{src}"), false);
+            // block-free programs go to the model whose correctness is proved in C02Loc (Compile1), programs
+            // with blocks to its extension Compile2
+            let with_blocks = case.chains.as_deref().map(|c| c.contains("(blk")).unwrap_or(false);
+            let (creq, ereq) = if with_blocks { ("compile2", "eval2") } else { ("compile1", "eval1") };
             let answer = match &case.chains {
-                Some(chs) => ck.model.ask(&format!("(compile1 {chs})")),
+                Some(chs) => ck.model.ask(&format!("({creq} {chs})")),
                 None => "no-request (instruction stream has fewer constants / tuples than the term)".to_string(),
             };
             let model_code = answer.strip_prefix("ok").map(|s| s.trim().to_string());
@@ -660,11 +664,17 @@ fn main() {
                 if case.real.contains("load") {
                     ev.hit("fragment1.with-variable-read");
                 }
+                if with_blocks {
+                    ev.hit("fragment1.with-block");
+                }
+                if case.real.contains("jump-") && case.real.contains("reset") && case.real.split(' ').any(|w| w.starts_with("jump-") && w != "jump-6" && w != "jump-7" && w != "jump-13") {
+                    ev.hit("fragment1.with-cleanup-block");
+                }
                 if i < 3 {
                     ev.sample(json!({"fragment1_source": src, "instructions": case.real}));
                 }
                 // the meaning function of the correctness theorem vs the value the real VM computes
-                let meaning = ck.model.ask(&format!("(eval1 {})", case.chains.as_deref().unwrap_or("")));
+                let meaning = ck.model.ask(&format!("({ereq} {})", case.chains.as_deref().unwrap_or("")));
                 let bc = unit.program.to_bytecode(Some(unit.entry));
                 let real_value = match qverif::catch(|| run_limited(bc, &b, 100)) {
                     Ok(Ok(Some((v, _)))) => format!("ok {}", frag1::show_value(&v)),
@@ -776,7 +786,8 @@ fn main() {
                     reject_samples.push(json!({"source": p.src(), "why": r}));
                 }
                 ev.hit("gen.rejected");
-                if r.starts_with("compile:VariableUndefined") {
+                // (developer aid `--report-internal-errors`: shrink the compiler's InternalError rejections too)
+                if r.starts_with("compile:VariableUndefined") || (opts.has_flag("--report-internal-errors") && r.starts_with("compile:InternalError")) {
                     report_rejected(&mut ev, &mut ck, &format!("gen:{i}"), &p, r, true);
                 }
                 continue;
